@@ -1,6 +1,7 @@
 package engine
 
 import (
+	"errors"
 	"net/http"
 	"time"
 
@@ -17,14 +18,25 @@ import (
 )
 
 // verifWebhookSvc answers every call with a 200 and the given body — no network
-type verifWebhookSvc struct{ body string }
+type verifWebhookSvc struct {
+	body   string
+	status int  // 0 = 200
+	broken bool // the connection fails: a trace without a response, and an error
+}
 
 func (s *verifWebhookSvc) Call(request *http.Request) (*flows.WebhookCall, error) {
 	t0 := time.Date(2020, 3, 4, 10, 0, 0, 0, time.UTC)
+	if s.broken {
+		return &flows.WebhookCall{Trace: &httpx.Trace{Request: request, RequestTrace: []byte(request.Method + " / HTTP/1.1\r\n\r\n"), StartTime: t0, EndTime: t0}}, errors.New("unable to connect to server")
+	}
+	status := s.status
+	if status == 0 {
+		status = 200
+	}
 	trace := &httpx.Trace{
 		Request:       request,
 		RequestTrace:  []byte(request.Method + " / HTTP/1.1\r\nHost: example.com\r\n\r\n"),
-		Response:      &http.Response{StatusCode: 200, Status: "200 OK", Header: http.Header{"Content-Type": []string{"application/json"}}},
+		Response:      &http.Response{StatusCode: status, Status: "200 OK", Header: http.Header{"Content-Type": []string{"application/json"}}},
 		ResponseTrace: []byte("HTTP/1.1 200 OK\r\nContent-Type: application/json\r\n\r\n"),
 		ResponseBody:  []byte(s.body),
 		StartTime:     t0,
@@ -68,7 +80,7 @@ func VerifC08_ProcessState() {
 	default:
 		zzverif.Cover("other-body")
 	}
-	svc := &verifWebhookSvc{bodies[k]}
+	svc := &verifWebhookSvc{body: bodies[k]}
 	eng := NewBuilder().WithWebhookServiceFactory(func(flows.SessionAssets) (flows.WebhookService, error) { return svc, nil }).Build()
 
 	first := verifObserverEvents(eng)
